@@ -118,3 +118,23 @@ Proof.
   - unfold well_formed, xrec2; simpl. repeat split; try discriminate; auto 10.
   - vm_compute. reflexivity.
 Qed.
+
+(* non-vacuity of the seek theorem: SEEK_END -4 in a 6-byte file, read 3 *)
+Example seek_anywhere_example :
+  let w := fst (xrun true true [ONewOpen nat 1 2 MWp; OWrite nat 1 [10; 11; 12; 13; 14; 15]; OSeek nat 1 1%Z SeekSet]) in
+  w_objs nat w 1 = FObj (Some 0) /\
+  m_read (s_mode (f_st (w_files nat w 0))) = true /\
+  seek_target 6 (s_pos (f_st (w_files nat w 0))) (-4)%Z SeekEnd = Some (Z.of_nat 2) /\
+  snd (run nat 0 xws xdigit xsign xcreat xfull true true w
+         [OSeek nat 1 (-4)%Z SeekEnd; OTell nat 1; OEof nat 1; ORead nat 1 3; OTell nat 1])
+  = [OkUnit nat; OkNum nat 2; OkBool nat false; OkRead nat 1 [12; 13; 14]; OkNum nat 5].
+Proof. vm_compute. repeat split; reflexivity. Qed.
+
+(* non-vacuity of the frame theorem: File 2 stays open at position 2 while File 0 is opened, written, deleted *)
+Example frame_example :
+  let w := fst (xrun true true [OOpen nat 2 0 MWp; OWrite nat 2 [1; 2]]) in
+  target nat (w_stack nat w) (ONewOpen nat 0 1 MW) <> Some 2 /\
+  abs_obj nat w (w_objs nat w 2) = SOpen (mkS 0 2 false MWp) /\
+  let w' := fst (run nat 0 xws xdigit xsign xcreat xfull true true w [ONewOpen nat 0 1 MW; OWrite nat 0 [5]; ODel nat 0]) in
+  abs_obj nat w' (w_objs nat w' 2) = SOpen (mkS 0 2 false MWp).
+Proof. split; [simpl; discriminate|]. vm_compute. split; reflexivity. Qed.
